@@ -263,7 +263,7 @@ def build_group(g, workdir):
         f.write('\n'.join(texts))
     for name, text in g.gen.items():
         with open(os.path.join(workdir, name), 'w') as f:
-            f.write(text)
+            f.write(text() if callable(text) else text)      # a callable is evaluated now, against the current tree (may raise ExtractionError)
     with open(os.path.join(workdir, 'template_macro.inc'), 'w') as f:
         f.write(X.extract_template_macro())
     with open(os.path.join(workdir, 'cxx_constants.inc'), 'w') as f:
